@@ -75,6 +75,13 @@ def addrtab_programs(rng, tier):
                 # does not hide the others
                 for t in rng.sample(far, 3):
                     progs.append([init, "memabs %s %s %x" % (rng.choice(c03.MK), at, t), "memabs addi8 %s %x" % (at, near[0])] + c03.tail(base))
+    # mov with the accumulator: moffs (movabs) form vs ModRM form, 64-bit-only / uint32-only / int32 addresses
+    for base in (0x10000, 1 << 32, 1 << 63):
+        for ib in (None, base):
+            init = "init x64 %s" % ("-" if ib is None else "%x" % ib)
+            for at in "dar":
+                for t in (0x123456789ABC, 0xFFFFFFFF, 0x100000000, 0x7FFFFFFF, 0xFFFFFFFF80000000, (base + 0x4000) & c03.M64, 1 << 63):
+                    progs.append([init, "memabs %s %s %x" % (rng.choice(("ldeax", "steax", "ldrax")), at, t), "memabs ldeax %s %x" % (at, t)] + c03.tail(base))
     for base in (0x1000, 0x7FFFF000, 0xFFFF0000):
         for at in "dar":
             progs.append(["init x86 -"] + ["memabs %s %s %x" % (k, at, t) for k in c03.MK for t in (0x1000, 0x80000000, 0xFFFFFFF0)] + c03.tail(base))
